@@ -326,70 +326,64 @@ unsafe fn write_all_sub_paths(
     raw: *const u8,
 ) -> core::result::Result<(), rusl::Error> {
     let len = buf.len();
-    let mut it = 1;
-    loop {
-        // Iterate down
-        let ind = len - it;
-        if ind == 0 {
-            break;
-        }
-
-        let byte = buf[ind];
-        if byte == b'/' {
+    // Iterate down, looking for the deepest ancestor that exists or can be created
+    let mut ind = len - 1;
+    while ind > 0 {
+        if buf[ind] == b'/' {
             // Swap slash for null termination to make a valid path
             buf[ind] = NULL_BYTE;
-
-            return match rusl::unistd::mkdir(
+            let res = rusl::unistd::mkdir(
                 UnixStr::from_bytes_unchecked(&buf[..=ind]),
                 Mode::from(0o755),
-            ) {
-                // Successfully wrote, traverse down
-                Ok(()) => {
-                    // Replace the null byte to make a valid path concatenation
-                    buf[ind] = b'/';
-                    for i in ind + 1..len {
-                        // Found next
-                        if buf[i] == b'/' {
-                            // Swap slash for null termination to make a valid path
-                            buf[i] = NULL_BYTE;
-                            rusl::unistd::mkdir(
-                                UnixStr::from_bytes_unchecked(&buf[..=i]),
-                                Mode::from(0o755),
-                            )?;
-                            // Swap back to continue down
-                            buf[i] = b'/';
-                        }
-                    }
-                    // if we end on a slash we don't have to write the last part
-                    if unsafe { raw.add(len - 1).read() } == b'/' {
-                        return Ok(());
-                    }
-                    // We know the actual length is len + 1 and null terminated, try write full
-                    rusl::unistd::mkdir(
-                        UnixStr::from_bytes_unchecked(core::slice::from_raw_parts(raw, len + 1)),
-                        Mode::from(0o755),
-                    )?;
-                    Ok(())
-                }
-                Err(e) => {
-                    if let Some(code) = e.code {
-                        if code == Errno::ENOENT {
-                            it += 1;
-                            // Put slash back, only way we end up here is if we tried to write
-                            // previously replacing the slash with a null-byte
-                            buf[ind] = b'/';
-                            continue;
-                        } else if code == Errno::EEXIST {
-                            return Ok(());
-                        }
-                    }
-                    Err(e)
-                }
-            };
+            );
+            // Put slash back
+            buf[ind] = b'/';
+            match res {
+                Ok(()) => break,
+                Err(e) => match e.code {
+                    // Something is there already, traverse down from here
+                    Some(Errno::EEXIST) => break,
+                    // The parent of this one is missing as well, keep looking
+                    Some(Errno::ENOENT) => {}
+                    _ => return Err(e),
+                },
+            }
         }
-        it += 1;
+        ind -= 1;
     }
-    Ok(())
+    // Traverse down, creating the ancestors that are still missing
+    for i in ind + 1..len {
+        if buf[i] == b'/' {
+            // Swap slash for null termination to make a valid path
+            buf[i] = NULL_BYTE;
+            let res = rusl::unistd::mkdir(
+                UnixStr::from_bytes_unchecked(&buf[..=i]),
+                Mode::from(0o755),
+            );
+            // Swap back to continue down
+            buf[i] = b'/';
+            match res {
+                Ok(()) => {}
+                Err(e) if e.code == Some(Errno::EEXIST) => {}
+                Err(e) => return Err(e),
+            }
+        }
+    }
+    // We know the actual length is len + 1 and null terminated, write the full path
+    let full = UnixStr::from_bytes_unchecked(core::slice::from_raw_parts(raw, len + 1));
+    match rusl::unistd::mkdir(full, Mode::from(0o755)) {
+        Ok(()) => Ok(()),
+        Err(e) if e.code == Some(Errno::EEXIST) => {
+            // Fine if what is there already is a directory
+            let stat = rusl::unistd::stat(full)?;
+            if Mode::from(stat.st_mode) & Mode::S_IFMT == Mode::S_IFDIR {
+                Ok(())
+            } else {
+                Err(e)
+            }
+        }
+        Err(e) => Err(e),
+    }
 }
 
 pub struct Directory(OwnedFd);
